@@ -243,7 +243,12 @@ func (a *ChannelUpdate1) Encode(w *bytes.Buffer, pver uint32) error {
 		recordProducers = append(recordProducers, &fee)
 	})
 
-	err := EncodeMessageExtraData(&a.ExtraOpaqueData, recordProducers...)
+	// The signature covers all of the extra bytes, including any records
+	// we don't know, so those must be written out again.
+	err := EncodeMessageExtraDataKeepUnknown(
+		&a.ExtraOpaqueData, []tlv.Type{a.InboundFee.TlvType()},
+		recordProducers...,
+	)
 	if err != nil {
 		return err
 	}
